@@ -258,6 +258,13 @@ func (session *ClientCommandSession) runReadLoop() {
 				}
 				if isInterleaved {
 					session.observer.OnInterleavedPacket(packet, int(channel))
+				} else {
+					// 不是interleaved数据（readInterleaved没有消费任何数据），那么只能是对端发来的rtsp message，
+					// 需要把它读走，否则会一直在同一个字节上空转
+					if _, err := readHttpResponseMessage(r); err != nil {
+						loopErr = err
+						return
+					}
 				}
 			}
 		}
